@@ -331,7 +331,7 @@ C05_CASES = [("10 N / 5 Pa -> N/Pa", "2 N/Pa"), ("120 J / 60 W -> J/W", "2 J/W")
              ("\"{10 N / 5 Pa -> N/Pa}\"", "\"2 N/Pa\""), ("1 km / 1 m", "1000"), ("5 m * 2 cm -> m*cm", "10 m·cm"), ("3 pN * 2 nm -> pN*nm", "6 pN·nm"),
              # registry-based simplification CONVERTS (the magnitude follows the unit): products of small prefixed units
              ("1 pN * 1 nm", "0.000458742 Ry"), ("2 µW * 3 ps", "2.75245 Ry"), ("3 pN * 2 nm", "0.00275245 Ry"), ("\"{3 pN * 2 nm}\"", "\"0.00275245 Ry\""),
-             ("(3 pN * 2 nm) -> pN*nm", "6 pN·nm"), ("50 Ω * 2 A", "100 V"), ("2 mA * 3 mV", "6 mA·mV")]
+             ("(3 pN * 2 nm) -> pN*nm", "6 pN·nm"), ("(30 mpg * 2 gallon) -> mile", "60 mi"), ("(1 swimmingpool / 1 footballfield) -> m", "0.35014 m"), ("30 mpg * 2 gallon", "619578 gal^(1/3)"), ("50 Ω * 2 A", "100 V"), ("2 mA * 3 mV", "6 mA·mV")]
 
 
 def w_c10(seed):
@@ -404,7 +404,7 @@ def w_c02(seed):
 
 
 # ---------------------------------------------------------------- C08: inputs that must end with a result or a reported error
-C08_INPUTS = ["mod(0, 7 m)", "atan2(0, 1 m)", "mod(7 m, 0)", "mod(5 m, inf)", "atan2(1 m, inf)", "mod(7 m, 2 cm)", "atan2(1 m, 1 cm)", "mod(NaN, 1 m)", "atan2(NaN, 2 s)",
+C08_INPUTS = ["30 mpg * 2 gallon", "1 swimmingpool / 1 footballfield", "sqrt(1 kg) * planck_mass", "print(30 mpg * 10 L)", '"{planck_length * sqrt(1 m)}"', "mod(0, 7 m)", "atan2(0, 1 m)", "mod(7 m, 0)", "mod(5 m, inf)", "atan2(1 m, inf)", "mod(7 m, 2 cm)", "atan2(1 m, 1 cm)", "mod(NaN, 1 m)", "atan2(NaN, 2 s)",
               "1 / 0", "(-1)!", "2.5!", "mod(7, 0)", "sqrt(-1)", "parse(\"\")" if False else "1 m + 2 s", "[] |> head", "element_at(5, [1])", "str_slice(5, 2, \"ab\")",
               "1e400", "2^1e10", "(2 m)^(1/0)", "10^400 m -> cm", "unit_of(0)", "value_of(inf m)"]
 
